@@ -10,6 +10,7 @@ class Work:
         self.sched_errors = []
         self.dispose_ret = None
         self.in_action = None
+        self.dup_cancels = 0
         self.overlap = None
 
     def body(self, sim, shim):
@@ -42,16 +43,23 @@ class Work:
             if kind == "cancel":
                 d = disps.get(op[1])
                 if d is not None:
-                    d.dispose()
                     rec = acts[op[1]]
-                    if rec["cancel_ret"] is None:
+                    # a cancel issued while another cancel of the same action is still in flight is a no-op that returns at
+                    # once (Disposable runs its action in the call that claimed the flag): its return proves nothing
+                    dup = rec["cancel_inflight"] > 0
+                    rec["cancel_inflight"] += 1
+                    d.dispose()
+                    rec["cancel_inflight"] -= 1
+                    if dup:
+                        self.dup_cancels += 1
+                    elif rec["cancel_ret"] is None:
                         rec["cancel_ret"] = sim.tick()
                         # commit-window rule: strict only if the loop provably has not committed to this action
                         rec["cancel_strict"] = (who == "loop") or (self.in_action is not None and self.in_action != op[1]) or loop_idle()
                 return
             aid = op[1]
             rec = acts[aid] = {"id": aid, "kind": kind, "inv": sim.tick(), "ret": None, "due": None, "start": None, "end": None,
-                               "start_t": None, "thread": None, "runs": 0, "cancel_ret": None, "cancel_strict": False, "error": None,
+                               "start_t": None, "thread": None, "runs": 0, "cancel_ret": None, "cancel_strict": False, "cancel_inflight": 0, "error": None,
                                "after_dispose": self.dispose_ret is not None}
             then = op[3] if len(op) > 3 else None
 
@@ -171,6 +179,8 @@ class Prop:
         out.probes["exit_if_empty" if sc["exit_if_empty"] else "keep_thread"] += 1
         if w.dispose_ret is not None:
             out.probes["disposed"] += 1
+        if w.dup_cancels:
+            out.probes["concurrent_duplicate_cancel"] += 1
         desc = "exit_if_empty=%s scripts=%s cps=%s sched=%s" % (sc["exit_if_empty"], sc["scripts"], cps, sc["sched"])
 
         def bad(rule, msg):
